@@ -52,6 +52,8 @@ fn fresh_id() -> usize {
 #[inline]
 fn tick() {
     TRANS.with(|c| c.set(c.get() + 1));
+    // every proxied method and constructor starts here: see scrub_calls
+    maybe_scrub();
 }
 fn push(op: Op) {
     TRACE.with(|t| {
@@ -87,6 +89,7 @@ fn ctor_op(cfg: &Cfg, what: &str, which: &str, ctor: Ctor, key: &[u8], iv: &[u8]
 
 pub fn new_bm(cfg: &Cfg, d: &BlockModeDesc, ctor: Ctor, key: &[u8], iv: &[u8]) -> Result<Box<dyn BlockMode>, ()> {
     tick();
+    maybe_scrub();
     let r = (d.make)(ctor, key, iv);
     let id = if r.is_ok() { fresh_id() } else { 0 };
     ctor_op(cfg, "bm", &format!("{}-{}", d.mode, d.dir.s()), ctor, key, iv, r.is_ok(), id);
@@ -97,6 +100,7 @@ pub fn bm(cfg: &Cfg, d: &BlockModeDesc, key: &[u8], iv: &[u8]) -> Box<dyn BlockM
 }
 pub fn new_core(cfg: &Cfg, d: &CoreDesc, ctor: Ctor, key: &[u8], iv: &[u8]) -> Result<Box<dyn Core>, ()> {
     tick();
+    maybe_scrub();
     let r = (d.make)(ctor, key, iv);
     let id = if r.is_ok() { fresh_id() } else { 0 };
     ctor_op(cfg, "core", d.mode, ctor, key, iv, r.is_ok(), id);
@@ -107,6 +111,7 @@ pub fn core(cfg: &Cfg, d: &CoreDesc, key: &[u8], iv: &[u8]) -> Box<dyn Core> {
 }
 pub fn new_stream(cfg: &Cfg, d: &CoreDesc, ctor: Ctor, key: &[u8], iv: &[u8]) -> Result<Box<dyn Stream>, ()> {
     tick();
+    maybe_scrub();
     let r = (d.make_stream)(ctor, key, iv);
     let id = if r.is_ok() { fresh_id() } else { 0 };
     ctor_op(cfg, "stream", d.mode, ctor, key, iv, r.is_ok(), id);
@@ -117,6 +122,7 @@ pub fn stream(cfg: &Cfg, d: &CoreDesc, key: &[u8], iv: &[u8]) -> Box<dyn Stream>
 }
 pub fn new_buf(cfg: &Cfg, d: &BufCfbDesc, ctor: Ctor, key: &[u8], iv: &[u8]) -> Result<Box<dyn BufCfb>, ()> {
     tick();
+    maybe_scrub();
     let r = (d.make)(ctor, key, iv);
     let id = if r.is_ok() { fresh_id() } else { 0 };
     ctor_op(cfg, "buf", d.dir.s(), ctor, key, iv, r.is_ok(), id);
@@ -127,6 +133,7 @@ pub fn buf(cfg: &Cfg, d: &BufCfbDesc, key: &[u8], iv: &[u8]) -> Box<dyn BufCfb> 
 }
 pub fn buf_from_state(cfg: &Cfg, d: &BufCfbDesc, key: &[u8], block: &[u8], pos: usize) -> Box<dyn BufCfb> {
     tick();
+    maybe_scrub();
     let b = (d.from_state)(key, block, pos);
     let id = fresh_id();
     if recording() {
@@ -177,13 +184,29 @@ macro_rules! rec_call {
         if recording() {
             let pre: Vec<u8> = $out.to_vec();
             let inp: Vec<u8> = $inp.to_vec();
+            maybe_scrub();
             let r = $call;
             push(Op { id: $self.id, new_id: 0, method: $method.to_string(), args: vec![$($arg.to_string()),*], inp, out_pre: pre, ret: $ret(&r), out_post: $out.to_vec() });
             r
         } else {
+            maybe_scrub();
             $call
         }
     }};
+}
+thread_local! {
+    static SCRUB: std::cell::Cell<bool> = const { std::cell::Cell::new(false) };
+}
+/// While on (C17's drop scan), the stack below the proxy is zeroed right before every call into the subject, whether or
+/// not the call is being recorded: whatever ends up in bytes of the object that no field owns then comes from the
+/// subject's own call, not from what the harness did in between, and is the same in the first and the confirming run.
+pub fn scrub_calls(on: bool) {
+    SCRUB.with(|s| s.set(on));
+}
+fn maybe_scrub() {
+    if SCRUB.with(|s| s.get()) {
+        crate::ctx::scrub_stack();
+    }
 }
 fn unit_s(_: &()) -> String {
     "()".into()
@@ -202,6 +225,7 @@ impl BlockMode for RecBm {
     }
     fn clone_from_obj(&mut self, src: &dyn BlockMode) -> bool {
         tick();
+        maybe_scrub();
         let r = self.inner.clone_from_obj(src);
         if recording() {
             push(Op { id: self.id, new_id: 0, method: "clone_from".into(), args: vec![src.obj_id().to_string()], inp: vec![], out_pre: vec![], ret: format!("{r}"), out_post: vec![] });
@@ -228,6 +252,7 @@ impl BlockMode for RecBm {
     }
     fn dup(&self) -> Box<dyn BlockMode> {
         tick();
+        maybe_scrub();
         let b = self.inner.dup();
         let id = fresh_id();
         if recording() {
@@ -290,6 +315,7 @@ impl BlockMode for RecBm {
     fn drop_scan(self: Box<Self>) -> (Vec<u8>, Vec<u8>) {
         tick();
         let me = *self;
+        maybe_scrub();
         let r = me.inner.drop_scan();
         if recording() {
             push(Op { id: me.id, new_id: 0, method: "drop_scan".into(), args: vec![], inp: vec![], out_pre: r.1.clone(), ret: hex(&r.0), out_post: vec![] });
@@ -311,6 +337,7 @@ impl Core for RecCore {
     }
     fn clone_from_obj(&mut self, src: &dyn Core) -> bool {
         tick();
+        maybe_scrub();
         let r = self.inner.clone_from_obj(src);
         if recording() {
             push(Op { id: self.id, new_id: 0, method: "clone_from".into(), args: vec![src.obj_id().to_string()], inp: vec![], out_pre: vec![], ret: format!("{r}"), out_post: vec![] });
@@ -379,6 +406,7 @@ impl Core for RecCore {
     }
     fn dup(&self) -> Option<Box<dyn Core>> {
         tick();
+        maybe_scrub();
         let b = self.inner.dup()?;
         let id = fresh_id();
         if recording() {
@@ -407,6 +435,7 @@ impl Core for RecCore {
     fn drop_scan(self: Box<Self>) -> (Vec<u8>, Vec<u8>) {
         tick();
         let me = *self;
+        maybe_scrub();
         let r = me.inner.drop_scan();
         if recording() {
             push(Op { id: me.id, new_id: 0, method: "drop_scan".into(), args: vec![], inp: vec![], out_pre: r.1.clone(), ret: hex(&r.0), out_post: vec![] });
@@ -428,6 +457,7 @@ impl Stream for RecStream {
     }
     fn clone_from_obj(&mut self, src: &dyn Stream) -> bool {
         tick();
+        maybe_scrub();
         let r = self.inner.clone_from_obj(src);
         if recording() {
             push(Op { id: self.id, new_id: 0, method: "clone_from".into(), args: vec![src.obj_id().to_string()], inp: vec![], out_pre: vec![], ret: format!("{r}"), out_post: vec![] });
@@ -491,6 +521,7 @@ impl Stream for RecStream {
     }
     fn dup(&self) -> Option<Box<dyn Stream>> {
         tick();
+        maybe_scrub();
         let b = self.inner.dup()?;
         let id = fresh_id();
         if recording() {
@@ -509,6 +540,7 @@ impl Stream for RecStream {
     fn drop_scan(self: Box<Self>) -> (Vec<u8>, Vec<u8>) {
         tick();
         let me = *self;
+        maybe_scrub();
         let r = me.inner.drop_scan();
         if recording() {
             push(Op { id: me.id, new_id: 0, method: "drop_scan".into(), args: vec![], inp: vec![], out_pre: r.1.clone(), ret: hex(&r.0), out_post: vec![] });
@@ -530,6 +562,7 @@ impl BufCfb for RecBuf {
     }
     fn clone_from_obj(&mut self, src: &dyn BufCfb) -> bool {
         tick();
+        maybe_scrub();
         let r = self.inner.clone_from_obj(src);
         if recording() {
             push(Op { id: self.id, new_id: 0, method: "clone_from".into(), args: vec![src.obj_id().to_string()], inp: vec![], out_pre: vec![], ret: format!("{r}"), out_post: vec![] });
@@ -550,6 +583,7 @@ impl BufCfb for RecBuf {
     }
     fn dup(&self) -> Box<dyn BufCfb> {
         tick();
+        maybe_scrub();
         let b = self.inner.dup();
         let id = fresh_id();
         if recording() {
@@ -568,6 +602,7 @@ impl BufCfb for RecBuf {
     fn drop_scan(self: Box<Self>) -> (Vec<u8>, Vec<u8>) {
         tick();
         let me = *self;
+        maybe_scrub();
         let r = me.inner.drop_scan();
         if recording() {
             push(Op { id: me.id, new_id: 0, method: "drop_scan".into(), args: vec![], inp: vec![], out_pre: r.1.clone(), ret: hex(&r.0), out_post: vec![] });
